@@ -319,6 +319,8 @@ class Inliner:
         f = call.func
         name = None
         recv = None
+        if isinstance(f, ast.Name) and f.id in getattr(self, "aliases", {}):
+            f = self.aliases[f.id]               # `helper = self._helper` ... `helper(...)`
         if isinstance(f, ast.Name):
             name = f.id
             if name in closures:
@@ -426,6 +428,15 @@ class Inliner:
                 for h in getattr(s, "handlers", []) or []:
                     collect(h.body)
         collect(fn.body)
+        # local aliases of methods: `helper = self._helper`, bound once
+        self.aliases = {}
+        cnt = {}
+        for n in ast.walk(fn):
+            if isinstance(n, ast.Assign) and len(n.targets) == 1 and isinstance(n.targets[0], ast.Name):
+                cnt[n.targets[0].id] = cnt.get(n.targets[0].id, 0) + 1
+                if isinstance(n.value, ast.Attribute) and isinstance(n.value.value, ast.Name) and n.value.value.id in ("self", "cls"):
+                    self.aliases[n.targets[0].id] = n.value
+        self.aliases = {k: v for k, v in self.aliases.items() if cnt.get(k) == 1}
         self._stmts(fn.body, closures, top=True)
         if closures:
             def prune(stmts):
